@@ -123,18 +123,32 @@ func writeMultipartFormFile(w *multipart.Writer, file *FileUpload, r *Request) e
 	return err
 }
 
+var errBadMultipartFieldName = errors.New("multipart form field name contains a control character, which a part header cannot carry")
+
+// writeMultipartField writes one form field. mime/multipart escapes only backslash and double
+// quote in the name: a control character (CR, LF, NUL ...) would go into the part header as is,
+// where it starts a new header line or makes the server reject the whole body.
+func writeMultipartField(w *multipart.Writer, name, value string) error {
+	for i := 0; i < len(name); i++ {
+		if c := name[i]; (c < 0x20 && c != '\t') || c == 0x7f {
+			return errBadMultipartFieldName
+		}
+	}
+	return w.WriteField(name, value)
+}
+
 func writeMultiPart(r *Request, w *multipart.Writer) error {
 	if len(r.OrderedFormData)%2 != 0 {
 		return errBadOrderedFormData
 	}
 	for i := 0; i+1 < len(r.OrderedFormData); i += 2 {
-		if err := w.WriteField(r.OrderedFormData[i], r.OrderedFormData[i+1]); err != nil {
+		if err := writeMultipartField(w, r.OrderedFormData[i], r.OrderedFormData[i+1]); err != nil {
 			return err
 		}
 	}
 	for k, vs := range r.FormData {
 		for _, v := range vs {
-			if err := w.WriteField(k, v); err != nil {
+			if err := writeMultipartField(w, k, v); err != nil {
 				return err
 			}
 		}
